@@ -585,7 +585,9 @@ pub fn c06(tier: Tier) -> i32 {
             let rs = reference(format, &data);
             let n = rs.recs.len() as u8;
             for cap in hist_caps(&data, &rs, tier) {
-                let mut pols = vec![PolKind::RefuseAbove(cap), PolKind::Plus1RefuseAbove(cap + 2), PolKind::RefuseAbove(2 * cap)];
+                // the crate's own limited policy with the limit below the doubling threshold ("always double,
+                // never above the limit"), the limit at, just above and at twice the capacity
+                let mut pols = vec![PolKind::RefuseAbove(cap), PolKind::Plus1RefuseAbove(cap + 2), PolKind::RefuseAbove(2 * cap), PolKind::Limited(1 << 20, cap), PolKind::Limited(1 << 20, cap + 1), PolKind::Limited(1 << 20, 2 * cap)];
                 if tier == Tier::Thorough {
                     pols.push(PolKind::Plus1RefuseAbove(cap + 5));
                     pols.push(PolKind::Plus1);
@@ -687,7 +689,7 @@ pub fn c06(tier: Tier) -> i32 {
         prop: "C06",
         tier,
         state_cap: if tier == Tier::Quick { 3000 } else { 60000 },
-        rule: format!("explicit-state BFS to fixpoint with histories continued past errors and end of input: (a) {} scenarios with refusing / slowly growing policies (refuse at once, +1 up to cap+2, doubling up to 2*cap) and alphabet {{next, read_record_set, exact(2), seek first/last, install permissive policy}}; (b) {} scenarios with one injected source error at EVERY source call index (reads and seeks), chunking all/3, plus short reads (1 or 2 bytes) with an interrupted read before every read or before one of the first four; (c) {} scenarios = every class string of length <= {} (both formats, binary/truncated/malformed) x every capacity x {{Std, refusing}} with alphabet {{next, set, exact(2)}}; oracle on every transition: no panic, per-call source-call budget (no hang), every record handed out (also by iterating a record set after a failed fill) is a record of the input, records after an error in increasing order; a successful seek re-establishes the strict reference oracle", n_policy, n_fault, n_class, maxlen),
+        rule: format!("explicit-state BFS to fixpoint with histories continued past errors and end of input: (a) {} scenarios with refusing / slowly growing policies (refuse at once, +1 up to cap+2, doubling up to 2*cap, the crate's DoubleUntilLimited with the limit at cap, cap+1, 2*cap below its doubling threshold) and alphabet {{next, read_record_set, exact(2), seek first/last, install permissive policy}}; (b) {} scenarios with one injected source error at EVERY source call index (reads and seeks), chunking all/3, plus short reads (1 or 2 bytes) with an interrupted read before every read or before one of the first four; (c) {} scenarios = every class string of length <= {} (both formats, binary/truncated/malformed) x every capacity x {{Std, refusing}} with alphabet {{next, set, exact(2)}}; oracle on every transition: no panic, per-call source-call budget (no hang), every record handed out (also by iterating a record set after a failed fill) is a record of the input, records after an error in increasing order; a successful seek re-establishes the strict reference oracle", n_policy, n_fault, n_class, maxlen),
         scenarios,
         plain_depth: 0,
         plain_every: 1,
